@@ -198,9 +198,19 @@ class Interstitial(object):
             # put an interstitial in that single state; the "first" one is fine:
             super0[ind] = self.chem
             superdict['states'][tag] = super0
+        invlatt = np.linalg.inv(basesupercell.lattice)
         for jumps, tags in zip(self.jumpnetwork, self.tags['transitions']):
             (i0, j0), dx0 = jumps[0]
             tag = tags[0]
+            # check whether our cell is large enough: the jump vector should be its own minimum image
+            dxmap = np.dot(basesupercell.lattice, crystal.inhalf(np.dot(invlatt, dx0)))
+            if not np.allclose(dx0, dxmap, atol=self.threshold):
+                if np.allclose(np.dot(dx0, dx0), np.dot(dxmap, dxmap), atol=self.threshold):
+                    failtype = 'multiplicity issue'
+                else:
+                    failtype = 'mapping error'
+                warnings.warn('Supercell:\n{}\ntoo small: transition {} has {}'.format(super_n, tag, failtype),
+                              RuntimeWarning, stacklevel=2)
             u0 = self.crys.basis[self.chem][i0]
             u1 = u0 + np.dot(self.crys.invlatt, dx0)  # should correspond to the j0
             super0, super1 = basesupercell.copy(), basesupercell.copy()
